@@ -141,7 +141,14 @@ def _ensure_text(v, encoding='utf-8', errors='strict'):
 
 # six on Python 3 (the interpreter the repository runs under): fixed meanings
 import math as _math
-DOTTED_CALLS = {'functools.reduce': _reduce, 'math.isnan': _math.isnan, 'math.isinf': _math.isinf, 'math.isfinite': _math.isfinite, 'math.ceil': _math.ceil, 'math.floor': _math.floor, 'six.iterbytes': lambda b: list(bytes(b)), 'six.indexbytes': lambda b, i: bytes(b)[i],
+import functools as _functools
+def _partial(f, *a, **k):
+    p = _functools.partial(f, *a, **k)
+    p._miniexec = True          # a function value built by the evaluated code
+    return p
+
+
+DOTTED_CALLS = {'functools.reduce': _reduce, 'functools.partial': _partial, 'math.isnan': _math.isnan, 'math.isinf': _math.isinf, 'math.isfinite': _math.isfinite, 'math.ceil': _math.ceil, 'math.floor': _math.floor, 'six.iterbytes': lambda b: list(bytes(b)), 'six.indexbytes': lambda b, i: bytes(b)[i],
                 'six.int2byte': lambda i: bytes([i]), 'six.ensure_binary': _ensure_binary, 'six.ensure_text': _ensure_text,
                 'six.ensure_str': _ensure_text, 'six.b': lambda s: s.encode('latin-1'), 'six.u': lambda s: s,
                 'six.text_type': str, 'six.binary_type': bytes}
@@ -195,6 +202,9 @@ for _t in (str, bytes, bytearray):
 import datetime as _datetime
 for _m in ('total_seconds',):
     METHODS.add((_datetime.timedelta, _m))
+
+
+_NOT_EVALUATED = object()
 
 
 class Native:
@@ -353,9 +363,15 @@ class Evaluator:
             try:
                 base = self.ev(n.value)
             except Unsupported:
-                base = None
+                base = _NOT_EVALUATED
+            if base is None:
+                # what Python does: the evaluated code reached through a null column / an absent value
+                raise AttributeError("'NoneType' object has no attribute %r" % n.attr)
             if isinstance(base, Native) and hasattr(base, n.attr):
                 return getattr(base, n.attr)
+            if isinstance(base, Native) and getattr(base, '_strict', False):
+                # a model that is complete: what it lacks, the object it stands for lacks as well
+                raise AttributeError('%r object has no attribute %r' % (getattr(base, 'name', 'model'), n.attr))
             if isinstance(base, Native) and getattr(base, '_repo_class', None) is not None:
                 # a property of the repository class the model object stands for: its getter, evaluated on the model
                 m = base._repo_class.resolve(n.attr)
@@ -864,6 +880,7 @@ def class_call_hook(cls, extra=None, model=None):
                             params = params[1:]
                         env.update(zip(params, args))
                         return Evaluator(env, make(cls, _m.module), name_hook_for(_m.module, outer)).function(_m.node)
+                    method_value._miniexec = True
                     return method_value
             if outer is not None:
                 try:
@@ -888,6 +905,21 @@ def class_call_hook(cls, extra=None, model=None):
                 if r is not NotImplemented:
                     return r
             f = n.func
+            if isinstance(f, ast.Name) and f.id == 'getattr' and len(n.args) in (2, 3) and 'getattr' not in ev.env:
+                # getattr(cls, name) / getattr(TheClass, name) with a computed name: the method (as a callable that evaluates its
+                # statements) or the class level constant of that name
+                try:
+                    base, attr_name = ev.ev(n.args[0]), ev.ev(n.args[1])
+                except Unsupported:
+                    base = attr_name = None
+                is_class = base in ('cls', 'self') and isinstance(base, str) or (isinstance(base, ClassRef) and base.info is owner)
+                if is_class and isinstance(attr_name, str):
+                    try:
+                        return name_hook_for(module, ev.name_hook)('cls.' + attr_name)
+                    except Unsupported:
+                        if len(n.args) == 3:
+                            return ev.ev(n.args[2])
+                        raise
             if isinstance(f, ast.Attribute):
                 bound = None
                 if isinstance(f.value, ast.Name) and f.value.id in ('self', 'cls'):
